@@ -699,8 +699,11 @@ class AggregatedWorkflowRuns(base.AbstractGitHostObject):
     @property
     def state(self):
         self.remove_unwanted_workflows()
+        # Group the runs of a branch together wherever they are in the list
+        # (groupby only groups consecutive elements).
         res = [list(v) for i, v in groupby(
-            self._workflow_runs,
+            sorted(self._workflow_runs,
+                   key=lambda elem: str(elem['head_branch'])),
             lambda elem: elem['head_branch']
         )]
 
